@@ -152,6 +152,10 @@ class Program:
             name = fn[:-3]
             m = ModuleInfo(name, p, src, tree)
             self.modules[name] = m
+        sigs = canon.collect_signatures([m.tree for m in self.modules.values()])
+        canon.SIGS = self.sigs = sigs
+        for m in self.modules.values():
+            canon.keyword_arguments(m.tree, sigs)
         self.digest = h.hexdigest()
         for m in self.modules.values():
             self._index_module(m)
